@@ -1821,6 +1821,31 @@ func (g *gen) groupHist(n int, steps int, withReverse bool) {
 			st = append(st, fmt.Sprintf("len,%d", len(st)-1))
 			st = append(st, fmt.Sprintf("gi,%d", len(st)-2))
 		}
+		if g.chance(0.1) {
+			// SetCharAt with a replacement of the SAME rune count as the cluster it replaces, differing in one
+			// rune that changes how the cluster joins its neighbours (seeded change C01k: cache kept when
+			// "nothing at the seam changed"); content and replacement over a pool of joining characters
+			pool := []rune{'a', 'b', 0x301, 0x200d, 0x1F469, 0x1F467, 0x1F1E9, 0x1F1EA, 0x600, 0x0d, 0x0a, 0x1100, 0x1161, 0x11a8, 0xFE0F, ' '}
+			cont := make([]rune, 3+g.r.Intn(5))
+			for k := range cont {
+				cont[k] = pool[g.r.Intn(len(pool))]
+			}
+			ed := rosed.Edit(string(cont))
+			cc := ed.CharCount()
+			idx := g.r.Intn(cc)
+			cl := []rune(ed.Chars(idx, idx+1).Text)
+			repl := append([]rune(nil), cl...)
+			k := []int{0, len(repl) - 1, g.r.Intn(len(repl))}[g.r.Intn(3)]
+			repl[k] = pool[g.r.Intn(len(pool))]
+			st = append(st, "new,"+encRunes(cont))
+			base := len(st) - 1
+			if g.chance(0.7) {
+				st = append(st, fmt.Sprintf("len,%d", base))
+			}
+			st = append(st, fmt.Sprintf("setcharat,%d,%d,%s", base, idx, encRunes(repl)))
+			r := len(st) - 1
+			st = append(st, fmt.Sprintf("gi,%d", r), fmt.Sprintf("len,%d", r), fmt.Sprintf("charat,%d,%d", r, idx), fmt.Sprintf("gi,%d", base))
+		}
 		for len(st) < steps {
 			src := g.r.Intn(len(st))
 			if g.chance(0.4) {
@@ -1860,6 +1885,64 @@ func (g *gen) groupHist(n int, steps int, withReverse bool) {
 			}
 		}
 		g.emit("hist", strings.Join(st, ";"))
+	}
+	g.histSameLength()
+}
+
+// Exhaustive family: SetCharAt whose replacement has the SAME rune count as the cluster it replaces and
+// differs from it only in the first rune, over every combination of cluster shape, old and new first rune and
+// following character (seeded change C01k: the cache is kept when "nothing at the seam changed", but the
+// break after an unchanged last rune depends on what stands before it: GB11, GB12/13, GB6-8, GB9b).
+func (g *gen) histSameLength() {
+	firsts := []rune{'a', 0x1F469, 0x1F1E9, 0x600, 0x1100, 0x0d, 0x301}
+	tmpl := [][]rune{{0x200d}, {0xFE0F, 0x200d}, {0x1F1EA}, {0x1161}, {0x301}, {0x0a}}
+	foll := []rune{0x1F467, 0x1F1EA, 0x1161, 0x11a8, 0x301, 'b', 0x0a, 0x200d}
+	k := 0
+	for _, t := range tmpl {
+		for _, f1 := range firsts {
+			for _, f2 := range firsts {
+				if f1 == f2 {
+					continue
+				}
+				for _, fo := range foll {
+					k++
+					cont := append(append([]rune{'p', f1}, t...), fo, 'q')
+					ed := rosed.Edit(string(cont))
+					// the cluster that holds rune position 1
+					idx, cl := 0, []rune(nil)
+					for i, pos := 0, 0; i < ed.CharCount(); i++ {
+						c := []rune(ed.Chars(i, i+1).Text)
+						if pos <= 1 && 1 < pos+len(c) {
+							idx, cl = i, c
+							break
+						}
+						pos += len(c)
+					}
+					if cl == nil {
+						continue
+					}
+					repl := append([]rune(nil), cl...)
+					if repl[0] == 'p' && len(repl) > 1 {
+						repl[1] = f2
+					} else {
+						repl[0] = f2
+					}
+					for _, measured := range []bool{true, false} {
+						if !measured && k%3 != 0 {
+							continue
+						}
+						st := []string{"new," + encRunes(cont)}
+						if measured {
+							st = append(st, "len,0")
+						}
+						st = append(st, fmt.Sprintf("setcharat,0,%d,%s", idx, encRunes(repl)))
+						r := len(st) - 1
+						st = append(st, fmt.Sprintf("gi,%d", r), fmt.Sprintf("len,%d", r), fmt.Sprintf("charat,%d,%d", r, idx), "gi,0")
+						g.emit("hist", strings.Join(st, ";"))
+					}
+				}
+			}
+		}
 	}
 }
 
